@@ -27,7 +27,7 @@
 
 namespace {
 
-struct Case { std::string file, kind, payload; long explen; std::string cls; };
+struct Case { std::string file, kind, payload; long explen; std::string cls; std::string status; };
 std::vector<Case> g_cases;
 std::string g_corpus;
 std::map<std::string, std::string> g_payload_cache;
@@ -51,7 +51,7 @@ void load_cases() {
         std::vector<std::string> f;
         size_t p = 0;
         while (true) { auto q = line.find('\t', p); f.push_back(line.substr(p, q == std::string::npos ? q : q - p)); if (q == std::string::npos) break; p = q + 1; }
-        if (f.size() == 5) g_cases.push_back(Case{f[0], f[1], f[2], std::atol(f[3].c_str()), f[4]});
+        if (f.size() == 6) g_cases.push_back(Case{f[0], f[1], f[2], std::atol(f[3].c_str()), f[4], f[5]});
     }
 }
 
@@ -85,9 +85,11 @@ void judge(const Case& c, const char* path_kind, const Outcome& o, const std::st
     const std::string where = c.kind + "-" + path_kind;
     if (o.foreign) vh::violation(where + ": exception not derived from std::exception", c.cls + " | " + c.file);
     if (o.offset_bad) vh::violation(where + ": reported offset exceeds the file size", c.cls + " | " + c.file);
-    if (c.explen >= 0) {
-        // reference decodes this file to ref[0:explen]: the library must give exactly that
+    if (c.status == "notjudged") { vh::count("files_not_judged(trailing-garbage ambiguity)"); return; }
+    if (c.status == "intact") {
+        // a complete valid file: the reference decodes it to ref[0:explen] and the library must give exactly that
         vh::count("files_with_reference_payload");
+        if (c.explen < 0) { vh::violation("harness: reference rejects an intact file", c.file); return; }
         if (o.threw) {
             vh::violation(where + ": valid file rejected: " + c.cls, c.file + " : " + o.what);
         } else if (o.out.size() != static_cast<size_t>(c.explen) || o.out.compare(0, std::string::npos, ref, 0, static_cast<size_t>(c.explen)) != 0) {
@@ -96,11 +98,14 @@ void judge(const Case& c, const char* path_kind, const Outcome& o, const std::st
                           vh::fmt("%s: got %zu bytes, reference %ld bytes, file size %zu", c.file.c_str(), o.out.size(), c.explen, file_size));
         }
     } else {
-        // reference reports an error
+        // truncated or corrupted file: it must not be accepted as a *shorter* payload
+        // (unless the reference decompressor accepts exactly the same shorter payload)
         vh::count("damaged_files");
         if (o.threw) { vh::count("damaged_files_rejected"); return; }
         const bool proper_prefix = o.out.size() < ref.size() && ref.compare(0, o.out.size(), o.out) == 0;
-        if (proper_prefix) vh::violation(where + ": damaged file accepted as a shorter payload: " + c.cls, vh::fmt("%s: got %zu of %zu bytes without error", c.file.c_str(), o.out.size(), ref.size()));
+        if (proper_prefix && !(c.explen >= 0 && static_cast<size_t>(c.explen) == o.out.size()))
+            vh::violation(where + ": damaged file accepted as a shorter payload: " + c.cls, vh::fmt("%s: got %zu of %zu bytes without error", c.file.c_str(), o.out.size(), ref.size()));
+        else if (o.out == ref) vh::count("damaged_files_decoded_completely(damage_in_unchecked_field)");
         else vh::count("damaged_files_other_divergence_not_judged");
     }
 }
@@ -179,7 +184,7 @@ void case_roundtrip(uint64_t idx, vh::Rng& rng) {
     }
     const std::string blob = slurp(path);
     if (reported != blob.size()) vh::violation(std::string(gz ? "gzip" : "bzip2") + " compressor: file_size() differs from the size on disk", vh::fmt("%zu vs %zu", reported, blob.size()));
-    Case c{path, gz ? "gzip" : "bzip2", "", static_cast<long>(n), "file written by the library's own compressor"};
+    Case c{path, gz ? "gzip" : "bzip2", "", static_cast<long>(n), "file written by the library's own compressor", "intact"};
     {
         const Outcome o = run_decompressor([&] { const int fd = ::open(path.c_str(), O_RDONLY | O_CLOEXEC); return factory.create_decompressor(comp, fd); }, blob.size());
         judge(c, "fd", o, data, blob.size());
